@@ -378,20 +378,21 @@ class Check:
         mine = {k: v for k, v in KERNEL_INFO.items() if v["group"] in groups}
         report = {"groups": groups, "kernels": mine, "ties_checked": [], "ties_broken": []}
         self.extra["regenerated_kernels"] = report
-        for group in groups:
-            cmd = f"timeout 900 make Tie/Tie_{group}.vo"
+        import kernels_defs  # type: ignore
+        for group, tie in [(g, t) for g in groups for t in kernels_defs.TIE_FILES.get((g, self.prop), [f"Tie_{g}"])]:
+            cmd = f"timeout 900 make Tie/{tie}.vo"
             code, out = sh(cmd, cwd=COQ)
             self.checker_cmd += " ; " + cmd
             if code == 0:
-                report["ties_checked"].append(f"Tie/Tie_{group}.v")
+                report["ties_checked"].append(f"Tie/{tie}.v")
                 continue
-            report["ties_broken"].append(f"Tie/Tie_{group}.v")
+            report["ties_broken"].append(f"Tie/{tie}.v")
             gone = [f"{k} ({v['source']}: {v.get('reason', '')})" for k, v in mine.items()
                     if v["group"] == group and v["status"] != "translated"]
-            what = (f"tie between the model and the source no longer checks: Tie/Tie_{group}.v over the kernels "
+            what = (f"tie between the model and the source no longer checks: Tie/{tie}.v over the kernels "
                     f"regenerated from /repo" + (f"; not translatable any more: {'; '.join(gone)}" if gone else ""))
             self.violation("broken-obligation", what,
-                           {"theorem_or_correspondence": f"Tie/Tie_{group}.v", "log": out[-3000:],
+                           {"theorem_or_correspondence": f"Tie/{tie}.v", "log": out[-3000:],
                             "kernels": {k: v for k, v in mine.items() if v["group"] == group}})
 
     def crosscheck_vm(self, cases, outs, k=None):
